@@ -22,7 +22,7 @@ def failed_run(res, case, o, clause='run', construct_is_violation=True):
     """handle outcomes that did not complete; returns True if the caller should stop.
     Exceptions while counting are violations of the calling property only where it says so."""
     if o.budget_hit:
-        res.skipped = 'rational-meek-iteration-budget'
+        res.skipped = 'wall-clock-watchdog' if o.budget_hit == 'wall-clock' else 'rational-meek-iteration-budget'
         return True
     if o.exc is not None:
         if o.stage in ('profile', 'construct'):
